@@ -168,6 +168,18 @@ var wraps = map[string]string{
 	"edge:return":        "sink(id(source()))",
 	"edge:arg":           "x := source()\n\tsink(x)",
 	"edge:binding":       "x := source()\n\tf := func() string {\n\t\treturn x\n\t}\n\tsink(f())",
+	// memory rows (closedMem): source → store → may-alias (a DIFFERENT SSA value) → load → sink
+	"mem:store":     "s := k()\n\tp := &s\n\tq := idp(p)\n\t*p = source()\n\tsink(*q)",
+	"mem:store#2":   "t := mkPS(k())\n\tt.B = source()\n\tsink(t.B)",
+	"mem:store#3":   "s := mkStrs(k())\n\ts[z()] = source()\n\tsink(s[z()])",
+	"mem:store#4":   "s := k()\n\tsink(stld(&s, &s, source()))",
+	"mem:store#5":   "s := k()\n\tp := &s\n\tpp := &p\n\tq := *pp\n\t*p = source()\n\tsink(*q)",
+	"mem:store#6":   "a, b := k(), k()\n\tp := &a\n\tif c() {\n\t\tp = &b\n\t}\n\t*p = source()\n\tsink(b)",
+	"mem:store#7":   "s := k()\n\tp := &s\n\tq := idp(p)\n\tfor i := 0; i < 2; i++ {\n\t\tsink(*q)\n\t\t*p = source()\n\t}",
+	"mem:mapupdate":   "m := mkMap(k())\n\tm2 := idm(m)\n\tm[k()] = source()\n\tsink(m2[k()])",
+	"mem:mapupdate#2": "m := map[string]string{}\n\tm2 := idm(m)\n\tm[source()] = k()\n\tfor kk := range m2 {\n\t\tsink(kk)\n\t}",
+	"mem:send":        "ch := make(chan string, 1)\n\tch2 := idc(ch)\n\tch <- source()\n\tsink(<-ch2)",
+	"mem:select-send": "ch := make(chan string, 1)\n\tch2 := idc(ch)\n\tselect {\n\tcase ch <- source():\n\tdefault:\n\t}\n\tsink(<-ch2)",
 }
 
 const wrapExtra = `
@@ -187,7 +199,41 @@ func mkH(x string) holder {
 }
 func id2(a, b string) (string, string) { return a, b }
 func id(x string) string { return x }
+func idp(p *string) *string { return p }
+func idm(m map[string]string) map[string]string { return m }
+func idc(ch chan string) chan string { return ch }
+func stld(p, q *string, v string) string { *p = v; return *q }
 `
+
+// memTemplateFor chooses the end-to-end template family for a closedMem failure (rule mstore / malias / mload).
+func memTemplateFor(d *fnDump, rule string, kv map[string]string) string {
+	at := atoi(kv["at"])
+	if at < 0 || at >= len(d.instrs) {
+		return ""
+	}
+	switch x := d.instrs[at].(type) {
+	case *ssa.Store:
+		return "mem:store"
+	case *ssa.MapUpdate:
+		return "mem:mapupdate"
+	case *ssa.Send:
+		return "mem:send"
+	case *ssa.Select:
+		if rule == "mload" {
+			return "select:0"
+		}
+		return "mem:select-send"
+	case *ssa.UnOp:
+		return "unop:" + x.Op.String()
+	case *ssa.Lookup:
+		return "lookup:0"
+	case *ssa.Index:
+		return "index:0"
+	case *ssa.Range:
+		return "range:0"
+	}
+	return ""
+}
 
 // templateFor chooses the template key for a failure in function d.
 func templateFor(d *fnDump, f failure) string {
@@ -289,7 +335,7 @@ func runSearch(key string) *searchResult {
 		return r
 	}
 	var last *searchResult
-	for _, k := range []string{key, key + "#2", key + "#3", key + "#4", key + "#5"} {
+	for _, k := range []string{key, key + "#2", key + "#3", key + "#4", key + "#5", key + "#6", key + "#7"} {
 		if _, ok := wraps[k]; !ok {
 			continue
 		}
